@@ -635,11 +635,11 @@ def run(ctx):
                           "and variant are pinned exactly (serde_attributes_documented); every finite f64 prints and parses back to the same bits "
                           "on 2e5 (quick) / 1e7 (thorough) values incl. subnormals, 17-digit values, hard decimal strings, whole configurations "
                           "(distinct = distinct bit patterns); NaN/inf are written as null and do not read back (recorded); KNOWN: expression "
-                          "crystals are written as {} (F17)",
+                          "crystals are written as {} (F23)",
         "auto = explicit optimum call": "proved (all oracles: same arguments, same order) for the setup built so far + validated bit-exactly; on the "
                                         "FINISHED setup: idler / waist positions / poling period proved and validated bit-exactly, crystal angle proved "
                                         "for collinear signals (C16_auto_theta_final_composed) and validated; it FAILS for non-collinear signals: "
-                                        "known finding F16",
+                                        "known finding F22",
         "omitted fields take documented defaults": "proved: the generated table of what every omittable field means when omitted (serde(default) + "
                                                    "the type's Default) equals the documented one; a default through a function is refused by the "
                                                    "generator + validated: the stream omits EVERY such field (incl. apodization, idler.phi_deg, "
